@@ -141,6 +141,18 @@ CLAIMED = {
         "Global ids unique in the tree; the external level has no positionals; indices of propagated values not compared.",
         "DESIGN.md section 4, C09",
     ),
+    "C10": (
+        "proptest random search with single-fault injection into generated valid invocations (17 fault kinds); oracle = allowed ErrorKind set per fault + error context must name the injected item + suggestions must name defined things + exit contract; plus fault-free lines must parse; shrinking",
+        "A valid intended invocation of a conventional command is generated, exactly one fault is injected (unknown long/short/cluster "
+        "member, surplus word, required positional removed, conflicting/exclusive partner added, Set repeated, value missing, wrong "
+        "count, missing =, value outside possible values / integer range, --flag=x, required subcommand missing, help/version request) "
+        "and the line is spelled freely. The error kind must be one the ErrorKind documentation allows for that fault, its context must "
+        "name the injected item (with the actual/expected counts where applicable), suggestions must name things defined on the path, "
+        "and kind/stream/exit code must obey the contract. Fault-free lines (C02's generator, with typed parsers) must not be rejected.",
+        "Expected kinds calibrated against documentation and the unchanged tree; fault-free lines satisfy requirements literally; the "
+        "level that raised an error is not observable, so suggestions are compared with everything defined along the path.",
+        "DESIGN.md section 4, C10",
+    ),
     "C11": (
         "proptest stateful testing: random histories of parse/build/render/clone steps on one Command value, differential oracle against a fresh definition per step, shrinking of the whole history",
         "For generated trees and a pool of argv sharing argv[0], histories of up to 12 steps (ParseMut, Build twice with Debug "
